@@ -50,6 +50,8 @@ static void history(const std::string& s1, const std::string& s2, const std::str
   masa_init<double>(h1, s1); masa_init<double>(h2, s2); g_calls += 2;
   masa_display_param<double>(); masa_display_vec<double>(); if (!fixture2) masa_sanity_check<double>(); g_calls += 3;
   ApiArgs A = tuple0(), AX = tupleX(); for (int k = 0; k < API_N; k++) { API_TABLE[k].cd(A); API_TABLE[k].cd(AX); g_calls += 2; }
+  // overloads with an integer argument (direction index, moment order): a range of integers around small tables and caches
+  for (int k = 0; k < API_N; k++) if (strchr(API_TABLE[k].sig, 'I')) for (int iv : {0, 2, 3, 4, 8, 16, 31, 32, 33, 40, 64, 65, 128}) { ApiArgs B = A; B.i = iv; API_TABLE[k].cd(B); g_calls++; }
   // vector parameters: every length change is followed by a full sweep of the evaluators, so that an evaluator indexing a
   // vector by another vector's length (or by a scalar count) runs with every mixed-length configuration
   std::vector<std::string> vns = vec_names_d();
